@@ -64,6 +64,13 @@ func w2History(r *prng.R, matcher int, special int) []w2call {
 			}
 		}
 	default:
+		if special == 900 {
+			// a writer that lives long: thousands of tiny messages, each followed by Flush
+			for m := 0; m < 1200; m++ {
+				h = append(h, w2call{Op: 'W', Fam: []string{"text", "random", "one"}[m%3], N: 1 + (m*7)%23, Seed: r.U64()}, w2call{Op: 'F'})
+			}
+			break
+		}
 		if special >= 1000 && special < 2000 {
 			// a little more than one chunk of data that is very nearly incompressible: sweeps
 			// the decision between a compressed and an uncompressed chunk
@@ -158,6 +165,9 @@ func checkC08(c *ev.Ctx) {
 				matcher = 0
 				cfg.Matcher = lzma.HashTable4
 			}
+		}
+		if i == nhist-nedge-nthin-1 || (thorough(c) && i%3000 == 77) {
+			special = 900
 		}
 		if thin := i - (nhist - nedge - nthin); thin >= 0 && thin < nthin {
 			special, matcher = 1000+thin, thin%2
